@@ -53,13 +53,80 @@ def mode_cfg(mode):
 OPNAME = {"CONV_2D_TRANSPOSE": "CONV_2D_TRANSPOSE"}
 
 
+def _supported(Q, md, code):
+  from ai_edge_quantizer import algorithm_manager
+  cfg, alg = mode_cfg(md)
+  try:
+    algorithm_manager.check_op_quantization_config(alg, Q.TFLOperationName(code), cfg)
+    return True
+  except ValueError:
+    return False
+
+
+def global_plan(scn, info, seed):
+  """The scenario's modes as ONE scope '.*': a '*' rule plus operator-specific rules under the same regex, or None.
+
+  Possible when every operator type (and the virtual INPUT / OUTPUT) has a single mode in the scenario. The '*' rule is
+  one of the modes present; an operator type in another mode gets its own rule (also when it does not support the
+  '*' config - the documented resolution skips the unsupported '*' rule and still applies the specific one); a type in
+  no-quantize mode gets an explicit no_quantize rule when it supports the '*' config and no rule at all when it does not.
+  """
+  import json, zlib
+  _, Q = _lib()
+  opnames = {x.value for x in Q.TFLOperationName}
+  bycode = {}
+  for si, sub in enumerate(scn["subs"]):
+    for oi, _ in enumerate(sub["ops"]):
+      bycode.setdefault(info["codes"][si][oi], set()).add(json.dumps(scn["mode"][si][oi], sort_keys=True))
+  bycode.setdefault("INPUT", set()).add(json.dumps(scn["inmode"], sort_keys=True))
+  bycode.setdefault("OUTPUT", set()).add(json.dumps(scn["outmode"], sort_keys=True))
+  if any(len(v) > 1 for v in bycode.values()):
+    return None
+  bycode = {c: json.loads(next(iter(v))) for c, v in bycode.items()}
+  present = sorted({json.dumps(m, sort_keys=True) for m in bycode.values() if m["m"] != "NOQ"})
+  if not present:
+    return None
+  pick = zlib.crc32(json.dumps([scn["mode"], scn["inmode"], scn["outmode"]], sort_keys=True).encode()) + seed
+  if pick % 3 != 0:
+    return None
+  star = json.loads(present[(pick // 3) % len(present)])
+  rules = [("*", star)]
+  for code in sorted(bycode):
+    md = bycode[code]
+    if code not in opnames:
+      if md["m"] != "NOQ":
+        return None
+      continue
+    sup = _supported(Q, star, code)
+    if md == star:
+      if not sup:
+        return None
+    elif md["m"] == "NOQ":
+      if sup:
+        rules.append((code, md))
+    else:
+      rules.append((code, md))
+  return rules
+
+
 def apply_recipe(q, scn, info, seed=0):
   """One rule per quantised operator; regex = the unique name of its first output tensor.
 
   An operator in no-quantize mode is realised in one of the ways a recipe can resolve to no-quantize (C03): no matching
   rule, an explicit no_quantize rule, or a '*' rule whose config the operator does not support (skipped at resolution).
+  One scenario in three whose modes are uniform per operator type is realised as a single scope instead (global_plan).
   """
   _, Q = _lib()
+  plan = global_plan(scn, info, seed)
+  if plan is not None:
+    for code, md in plan:
+      opn = Q.TFLOperationName.ALL_SUPPORTED if code == "*" else Q.TFLOperationName(code)
+      if md["m"] == "NOQ":
+        q.update_quantization_recipe(".*", opn, None, "no_quantize")
+      else:
+        cfg, alg = mode_cfg(md)
+        q.update_quantization_recipe(".*", opn, cfg, alg)
+    return
   n = 0
   nsub = len(scn["subs"])
   opnames = {x.value for x in Q.TFLOperationName}
